@@ -256,7 +256,7 @@ func c11View(v *c11Val, kind string, i, j int, prov string) *c11Val {
 var c11Ops = []string{"list", "vector", "literal", "sorted-map", "to-bytes", "alias",
 	"slice-list", "slice-vector", "cdr", "rest", "slice-bytes",
 	"append-list", "append-vector", "append-vector-zero", "append-bytes", "concat-list", "concat-vector", "cons", "reverse", "map", "select", "reject", "zip", "insert-index", "insert-sorted",
-	"assoc", "dissoc", "keys", "nest-list", "nest-map", "get", "insert-index-elem", "insert-sorted-elem", "cons-elem", "append-elem",
+	"assoc", "dissoc", "keys", "nest-list", "nest-map", "get", "elem", "elem", "insert-index-elem", "insert-sorted-elem", "cons-elem", "append-elem",
 	"append!", "append!-bind", "append-bytes!", "assoc!", "dissoc!", "stable-sort", "stable-sort-bind", "stable-sort-view-inline", "append!-view-inline", "append!-append-result-inline"}
 
 // c11Step generates one operation: its lisp source and its effect on the model.
@@ -555,6 +555,39 @@ func c11Step(r *fw.RNG, h *c11Heap) (src, opname, sig string) {
 		}
 		name := h.bind(v.m[k])
 		return fmt.Sprintf("(set '%s (get %s %q))", name, n, k), op, op + "|" + v.m[k].kind
+	case "elem":
+		// a container reached as an ELEMENT of a sequence (a row of a zip result, a
+		// nested list ...) gets a name of its own: it is the same value
+		n, v := h.pick(r, func(v *c11Val) bool {
+			if !c11IsSeq(v) {
+				return false
+			}
+			for _, e := range v.elems() {
+				if e.kind != "int" {
+					return true
+				}
+			}
+			return false
+		})
+		if v == nil {
+			return "", "", ""
+		}
+		var idxs []int
+		for i, e := range v.elems() {
+			if e.kind != "int" {
+				idxs = append(idxs, i)
+			}
+		}
+		i := fw.Pick(r, idxs)
+		e := v.elems()[i]
+		name := h.bind(e)
+		acc := fmt.Sprintf("(nth %s %d)", n, i)
+		if v.kind == "vector" && r.Bool() {
+			acc = fmt.Sprintf("(aref %s %d)", n, i)
+		} else if i == 0 && r.Bool() {
+			acc = fmt.Sprintf("(first %s)", n)
+		}
+		return fmt.Sprintf("(set '%s %s)", name, acc), op, op + "|" + v.kind + "|" + e.kind + "|" + v.prov
 	case "insert-index-elem", "insert-sorted-elem", "cons-elem", "append-elem":
 		// a CONTAINER stored as an element by a non-mutating builtin: the result is fresh
 		// storage whose new element is the very value that was passed (a later change of
@@ -747,6 +780,11 @@ func c11Run(w *fw.W, idx int) {
 					key = fmt.Sprintf("unexpected-sharing:%s:other-value-from=%s", strings.SplitN(op, "-", 2)[0], mv.prov)
 				}
 				w.Violation(key, fmt.Sprintf("after %q the value %s is %s but the documented discipline gives %s", src, name, got, want), strings.Join(log, "\n"))
+				return
+			}
+			// what `length` reports must be the number of elements the value holds
+			if (mv.kind == "list" || mv.kind == "vector") && rv.Len() != len(got.Kids) {
+				w.Violation("length-disagrees-with-contents:"+op, fmt.Sprintf("after %q the value %s holds %d elements (%s) but (length %s) is %d", src, name, len(got.Kids), got, name, rv.Len()), strings.Join(log, "\n"))
 				return
 			}
 			w.Count("values_reinspected", 1)
